@@ -89,6 +89,8 @@ pub struct Scripted {
     sh: Shared,
     log_reads: bool,
     fault_at: Option<(usize, io::ErrorKind)>,
+    /// deferred wake-ups are fired by a helper thread (needed when the reader is driven by block_on)
+    threaded_wake: bool,
 }
 
 impl Scripted {
@@ -101,7 +103,12 @@ impl Scripted {
             fault_at = Some((o, k));
             script.pop_front();
         }
-        (Scripted { data, pos: 0, script, default_chunk, sh, log_reads, fault_at }, sh2)
+        (Scripted { data, pos: 0, script, default_chunk, sh, log_reads, fault_at, threaded_wake: false }, sh2)
+    }
+
+    pub fn threaded(mut self) -> Scripted {
+        self.threaded_wake = true;
+        self
     }
 
     fn note(&self, j: J) {
@@ -198,6 +205,13 @@ impl AsyncRead for Scripted {
                 self.note(json!({"ev":"read","want":want,"pos":pos,"r":"pending","wake": if now {"now"} else {"later"}}));
                 if now {
                     cx.waker().wake_by_ref();
+                } else if self.threaded_wake {
+                    let w = cx.waker().clone();
+                    self.note(json!({"ev":"wake"}));
+                    std::thread::spawn(move || {
+                        std::thread::sleep(std::time::Duration::from_micros(300));
+                        w.wake();
+                    });
                 } else {
                     *self.sh.deferred.lock().unwrap() = Some(cx.waker().clone());
                 }
